@@ -410,10 +410,12 @@ Alphabet(def) ==
   \cup (IF A.clusters THEN UNION {ClusterItems(def, l) : l \in AllLevels(def)} ELSE {})
   \cup {[t |-> "word", s |-> w, txt |-> w] : w \in RangeOf(A.words) \cup CmdNames(def)}
   \cup {[t |-> (CASE x \in {"helpshort", "althelp"} -> "help" [] x \in {"vershort", "altver"} -> "ver"
-                  [] x = "unkshort" -> "unk" [] OTHER -> x),
+                  [] x \in {"unkshort", "near"} -> "unk" [] OTHER -> x),
          s |-> "", txt |-> (CASE x = "dd" -> "--" [] x = "help" -> "--help" [] x = "helpshort" -> "-h"
                               [] x = "ver" -> "--version" [] x = "vershort" -> "-V"
                               [] x = "althelp" -> "--aide" [] x = "altver" -> "--vers"
+                              \* an unknown flag that is one slip away from a declared name (given by the definition)
+                              [] x = "near" -> A.near
                               [] x = "unk" -> "--zz" [] x = "unkshort" -> "-Z")] : x \in RangeOf(A.extras)}
 
 (* ------------------------------------------------------------------ state machine *)
